@@ -390,7 +390,18 @@ for _n in ("max", "min"):
           all(np.size(b) == 1 for b in x.blocks.values()), draw=noargs,
           kind="scalar", reads_blocks=True, group="reduce")
 def _item(x, a, lazy=True):
-    return x.item()
+    v = x.item()
+    # the number protocols are documented shorthands of item()
+    from .core import Discrepancy
+
+    c = complex(x)
+    if c != complex(v):
+        raise Discrepancy("item:complex()", f"complex(x)={c!r}, item()={v!r}")
+    if not np.iscomplexobj(v):
+        f = float(x)
+        if f != float(complex(v).real):
+            raise Discrepancy("item:float()", f"float(x)={f!r}, item()={v!r}")
+    return v
 
 
 @register("to_dense", applicable=lambda x: is_arr(x) and bool(x.blocks),
